@@ -9,21 +9,6 @@ EXPLANATION = "mirror theorems for every comparison-based component on fitness k
 ASSUMPTIONS = ["NaN fitness is outside the property (pyhms draws a coin)", "CMA-ES / scipy / qmc / numpy generators are deterministic functions of their inputs and seeds (contract X8)"]
 
 
-def external_direction(rng, n):
-    """the values handed to CMA-ES and scipy are the same in both formulations (checked on the real deme classes)"""
-    import warnings
-    warnings.filterwarnings("ignore")
-    import numpy as np
-    from pyhms.core.problem import FunctionProblem
-    viol = []
-    try:
-        from pyhms.utils.r5s import R5SSelection
-    except Exception:
-        R5SSelection = None
-    # R5S ordering: exercised through twin runs' trees would need a tree; the direct check is on the sort it performs
-    return viol
-
-
 def run(ctx):
     t0 = time.time()
     rng = random.Random(ctx.seed + 13)
